@@ -195,17 +195,75 @@ def instantiate(qhyps, base, rounds=3):
 
 
 class Verdict:
-    def __init__(self, status, backend, secs, model=None, raw=""):
-        self.status = status      # 'unsat' | 'sat' | 'unknown'
+    def __init__(self, status, backend, secs, model=None, raw="", subst=None):
+        self.status = status      # 'unsat' | 'sat' | 'unknown' | 'sat-abstract'
         self.backend = backend
         self.secs = secs
         self.model = model
         self.raw = raw
+        self.subst = subst        # term -> constant pairs of the abstraction the model belongs to
+
+
+_STR_ABS_OK = {z3.Z3_OP_ITE, z3.Z3_OP_SELECT}
+
+
+def _is_strlike(sort):
+    k = sort.kind()
+    return k == z3.Z3_SEQ_SORT
+
+
+def abstract_opaque(assertions):
+    """Pass-1 abstraction (DESIGN 2.8): every maximal compound term of a
+    string / sequence sort (split, join, strip, slices, nth, concatenations)
+    is replaced by a fresh constant, the same term always by the same
+    constant.  This only forgets facts, so `unsat` of the result is final."""
+    table = {}
+    pairs = []
+    visited = set()
+    todo = list(assertions)
+    while todo:
+        e = todo.pop()
+        if e.get_id() in visited:
+            continue
+        visited.add(e.get_id())
+        if z3.is_quantifier(e) or not z3.is_app(e):
+            continue
+        if e.num_args() > 0 and _is_strlike(e.sort()) and e.decl().kind() not in _STR_ABS_OK:
+            if e.get_id() not in table:
+                cst = z3.Const(f"abs!{len(table)}!{e.get_id()}", e.sort())
+                table[e.get_id()] = cst
+                pairs.append((e, cst))
+            continue
+        todo.extend(e.children())
+    if not pairs:
+        return None
+    return [z3.substitute(a, *pairs) for a in assertions], pairs
 
 
 def check(assertions, want_model=True):
-    """Decide satisfiability of the conjunction."""
+    """Decide satisfiability of the conjunction (two passes when string
+    terms are present: abstracted first, precise only if that is sat)."""
     t0 = time.time()
+    try:
+        abstracted = abstract_opaque(assertions)
+    except z3.Z3Exception:
+        abstracted = None
+    abs_model = None
+    abs_pairs = None
+    if abstracted is not None:
+        abstracted, abs_pairs = abstracted
+        s0 = z3.Solver()
+        s0.set("timeout", Z3_TIMEOUT_MS)
+        s0.add(z3.And(abstracted) if len(abstracted) > 1 else abstracted)
+        r0 = s0.check()
+        if r0 == z3.sat and want_model:
+            abs_model = s0.model()
+        if r0 == z3.unsat:
+            secs = time.time() - t0
+            STATS["prove_calls"] += 1
+            STATS["prove_time"] += secs
+            _count("z3-inproc-abstracted")
+            return Verdict("unsat", "z3-inproc-abstracted", secs)
     s = z3.Solver()
     s.set("timeout", Z3_TIMEOUT_MS)
     s.add(z3.And(assertions) if len(assertions) > 1 else assertions)
@@ -229,6 +287,9 @@ def check(assertions, want_model=True):
         if res in ("unsat", "sat"):
             _count(name)
             return Verdict(res, name, time.time() - t0, None, raw)
+    if abs_model is not None:
+        # refuted after abstraction, undecided precisely: a candidate that must survive the native replay
+        return Verdict("sat-abstract", "z3-inproc-abstracted", time.time() - t0, abs_model, reason, abs_pairs)
     return Verdict("unknown", "none", time.time() - t0, None, reason)
 
 
